@@ -285,6 +285,7 @@ func runC01() {
 	if run.Thorough() {
 		n = 20000
 	}
+	n = scaled(n)
 	for i := 0; i < n; i++ {
 		c01Scenario(rnd.Fork())
 	}
